@@ -758,9 +758,10 @@ fn run_overflow(ver: u32, seed: u64, k: usize, per: usize) -> Option<OvRes> {
 	Some(OvRes { ver, lists, stream, send_errs })
 }
 
-/// whole frames; per sender a PREFIX of its list (with the writer stalled the channel never frees a slot);
-/// the number of frames
-fn is_prefix_merge(lists: &[Vec<Vec<u8>>], stream: &[u8]) -> Result<usize, String> {
+/// whole frames, no foreign frame, per sender a SUBSEQUENCE of its list in order (what `try_send` guarantees under
+/// every schedule: once the writer frees a slot a later message of a sender can get in although an earlier one
+/// of the same sender was dropped); the number of frames
+fn is_sub_merge(lists: &[Vec<Vec<u8>>], stream: &[u8]) -> Result<usize, String> {
 	let mut p = 0;
 	let mut next = vec![0usize; lists.len()];
 	let mut n = 0;
@@ -775,10 +776,16 @@ fn is_prefix_merge(lists: &[Vec<Vec<u8>>], stream: &[u8]) -> Result<usize, Strin
 			return Err(format!("half a frame at offset {}: {} bytes announced, {} there", p, len, stream.len() - p - 11));
 		}
 		let f = &stream[p..p + 11 + len];
-		let owner = lists.iter().enumerate().find(|(i, l)| next[*i] < l.len() && &l[next[*i]][..] == f).map(|(i, _)| i);
+		let mut owner = None;
+		for (i, l) in lists.iter().enumerate() {
+			if let Some(off) = l[next[i]..].iter().position(|x| &x[..] == f) {
+				owner = Some((i, next[i] + off + 1));
+				break;
+			}
+		}
 		match owner {
-			Some(i) => next[i] += 1,
-			None => return Err(format!("frame {} ({} bytes, type {}) is not the next frame of any sender (a later message of a sender arrived although an earlier one was dropped, or a foreign frame)", n, f.len(), f[2])),
+			Some((i, nx)) => next[i] = nx,
+			None => return Err(format!("frame {} ({} bytes, type {}) is no LATER frame of any sender (out of order, duplicated or foreign)", n, f.len(), f[2])),
 		}
 		n += 1;
 		p += 11 + len;
@@ -806,13 +813,13 @@ pub fn channel_overflow(cx: &mut Ctx) {
 				cx.out.raw("#ORACLE-FAIL C19 overflow: the connection could not be set up");
 			}
 			Some(r) => {
-				let verdict = match is_prefix_merge(&r.lists, &r.stream) {
+				let verdict = match is_sub_merge(&r.lists, &r.stream) {
 					// `cap` in the channel, possibly one more in the hands of the parked writer
-					Ok(n) if (n == cap || n == cap + 1) && r.send_errs == 0 => "prefixes".to_string(),
-					Ok(n) => format!("prefixes-but:frames:{}:send-errors:{}", n, r.send_errs),
+					Ok(n) if (n == cap || n == cap + 1) && r.send_errs == 0 => "subsequences".to_string(),
+					Ok(n) => format!("subsequences-but:frames:{}:send-errors:{}", n, r.send_errs),
 					Err(e) => format!("broken:{}", e.replace(' ', "_")),
 				};
-				if verdict != "prefixes" {
+				if verdict != "subsequences" {
 					cx.fails += 1;
 					cx.out.raw(&format!(
 						"#ORACLE-FAIL C19 send channel overflowing under {} concurrent senders x {} messages with the writer stalled (SEND_CHANNEL_CAP = {}): {}",
